@@ -697,3 +697,8 @@ Lemma constant_weight : forall rows c f, loglike rows (fun _ => c) f = c * rsum 
 Proof.
   intros rows c f. unfold loglike. induction rows as [|r rows IH]; simpl; [lra | rewrite IH; lra].
 Qed.
+
+(* the vector of current values after change_init_values (generated changed_value): a given value --
+   zero included -- replaces the old one, a parameter that is not mentioned keeps its value *)
+Lemma changed_value_spec : forall old v, changed_value old (Some v) = v /\ changed_value old None = old.
+Proof. intros. split; reflexivity. Qed.
